@@ -83,6 +83,9 @@ func (t *websocketTransport) Send(ctx context.Context, e envelope) error {
 		// Effectively fails all pending write operations before returning.
 		// Note that this makes the encoder to be in a permanent error state.
 		_ = conn.SetWriteDeadline(time.Now())
+		// The websocket connection only records that deadline for the writes to come; the one in
+		// progress - blocked because the peer does not read - is woken through the network connection.
+		_ = conn.UnderlyingConn().SetWriteDeadline(time.Now())
 		<-errChan
 		return fmt.Errorf("ws transport: send: %w", ctx.Err())
 	case err := <-errChan:
